@@ -5,7 +5,11 @@ Decided clause:
       Parser::parse_script_with_source and Context::run are dominated by the Ok edge of serde_json::from_str on the
       same text, the parser is put into JSON mode (set_json_parse) before parsing, and the ByteCompiler is built with
       json_parse = true
-Not decided: the accepted language itself, the value mapping, everything about JSON.stringify.
+  R2  JSON.stringify's string quoting emits only escapes of the JSON grammar: in Json::quote_json_string every sequence
+      appended to the product that starts with a backslash is either a constant two-unit escape whose letter is one of
+      " \\ / b f n r t, or `\\u` followed by exactly four to_hex_digit results; an escape letter taken from a constant
+      table is accepted only if every entry of the table is such a letter (the writer's table ⊆ the grammar's table)
+Not decided: the accepted language itself, the value mapping, the rest of JSON.stringify.
 """
 from facts import (cn, callee, cname, roots, op_local, taint, arg_hits, place_fields, provenance)
 
@@ -17,7 +21,155 @@ EXPLANATION = (
     "this is the only path from JSON.parse to evaluation. The accepted language and JSON.stringify are not decided.")
 
 
+JSON_ESCAPE_LETTERS = {0x22, 0x5C, 0x2F, 0x62, 0x66, 0x6E, 0x72, 0x74}   # ECMA-404 §9: \" \\ \/ \b \f \n \r \t
+
+
+def _unit(db, f, o, depth=0):
+    """classify one u16 operand: ('c', value) | ('hex',) | ('table', [bytes]) | ('enc',) | ('?', why)"""
+    if o[0] == "k":
+        v = o[1].get("v")
+        return ("c", int(v)) if v is not None else ("?", "opaque constant")
+    l = op_local(o)
+    if l is None:
+        return ("?", "not a local")
+    rs = roots(f, l)
+    if len(rs) != 1:
+        return ("?", f"{len(rs)} reaching definitions")
+    r = rs[0]
+    if r[0] == "const":
+        v = r[1].get("v")
+        return ("c", int(v)) if v is not None else ("?", "opaque constant")
+    if r[0] == "rv" and r[2].get("k") == "cast" and depth < 4:
+        return _unit(db, f, r[2]["o"], depth + 1)
+    if r[0] == "call":
+        c = cn(r[2])
+        if c.endswith("to_hex_digit"):
+            return ("hex",)
+        if c.endswith("::from") and r[2]["args"] and depth < 4:
+            return _unit(db, f, r[2]["args"][0], depth + 1)
+        return ("?", "result of " + c)
+    if r[0] == "place":
+        # indexing into a constant table: every entry must be an escape letter
+        base = r[1][0]
+        for rr in roots(f, base):
+            if rr[0] == "const" and (rr[1].get("bytes") is not None or rr[1].get("c") or rr[1].get("def")):
+                tb = _const_units(db, rr[1])
+                if tb is not None:
+                    return ("table", tb)
+        return ("?", "read through a place that is not a constant table")
+    return ("?", r[0])
+
+
+def _const_units(db, k):
+    """the elements of a constant array / byte string (from the promoted or const body), or None"""
+    if k.get("bytes") is not None:
+        b = k["bytes"]
+        return list(bytes.fromhex(b)) if isinstance(b, str) else list(b)
+    cid = k.get("c")
+    if isinstance(cid, str) and cid.startswith('b"') and cid.endswith('"'):
+        import ast
+        try:
+            return list(ast.literal_eval(cid))      # byte-string literal as printed by rustc
+        except (ValueError, SyntaxError):
+            return None
+    g = db.fns.get(cid) if cid else None
+    if g is None:
+        return None
+    for b in g.reachable():
+        for st in g.blocks[b]["s"]:
+            r = st["r"]
+            if r.get("k") == "agg" and r.get("ak") == "array":
+                out = []
+                for o in r["ops"]:
+                    if o[0] != "k" or o[1].get("v") is None:
+                        return None
+                    out.append(int(o[1]["v"]))
+                return out
+            if r.get("k") == "use" and r["o"][0] == "k" and r["o"][1] is not k:
+                return _const_units(db, r["o"][1])
+    return None
+
+
+def _sequence(db, f, l, depth=0):
+    """the units of the slice/array in local l: (units | None, why)"""
+    rs = roots(f, l)
+    if len(rs) != 1:
+        return None, f"{len(rs)} reaching definitions"
+    r = rs[0]
+    if r[0] == "const":
+        tb = _const_units(db, r[1])
+        return ([("c", v) for v in tb], None) if tb is not None else (None, "constant whose elements are not visible")
+    if r[0] == "rv" and r[2].get("k") == "agg" and r[2].get("ak") == "array":
+        return [_unit(db, f, o) for o in r[2]["ops"]], None
+    if depth < 5:
+        if r[0] == "rv" and r[2].get("k") == "cast" and op_local(r[2]["o"]) is not None:
+            return _sequence(db, f, op_local(r[2]["o"]), depth + 1)
+        if r[0] == "call" and cn(r[2]).split("::")[-1] in ("as_slice", "deref", "borrow", "as_ref") and r[2]["args"] \
+                and op_local(r[2]["args"][0]) is not None:
+            return _sequence(db, f, op_local(r[2]["args"][0]), depth + 1)
+    if r[0] == "call" and cn(r[2]).endswith("encode_utf16"):
+        return [("enc",)], None
+    return None, f"appended value comes from {r[0]} {cn(r[2]) if r[0] == 'call' else r[2].get('k') if r[0] == 'rv' else ''}"
+
+
+def r2(db, rep):
+    rep.rule("R2", "Json::quote_json_string appends only JSON escapes: a constant `\\x` with x in \" \\ / b f n r t, or `\\u` + four "
+                   "hex digits; escape letters from a table only if the whole table is within that set")
+    fs = [f for f in db.fns.values() if cname(f.id) == "Json::quote_json_string" and f.id.startswith("boa_engine::builtins::json")
+          and "promoted" not in f.id and "{closure" not in f.id]
+    if not rep.anchor("R2", "Json::quote_json_string", fs):
+        return
+    f = fs[0]
+    n = 0
+    for b, t in f.calls():
+        c = cn(t)
+        if c not in ("Vec::extend_from_slice", "Vec::push", "Vec::extend", "Vec::insert") or "u16" not in (t.get("g") or ""):
+            continue
+        if len(t["args"]) < 2:
+            continue
+        units = None
+        why = None
+        if c == "Vec::push":
+            units = [_unit(db, f, t["args"][1])]
+        else:
+            l = op_local(t["args"][1])
+            units, why = _sequence(db, f, l) if l is not None else (None, "not a local")
+        n += 1
+        key = f"quote_json_string:append:{n - 1}"
+        if units is None:
+            rep.ob("R2", key + ":recognised", False,
+                   f"Json::quote_json_string appends a sequence the rule cannot read ({why}) at {f.loc(b)}", loc=f.loc(b))
+            continue
+        ok = True
+        msg = ""
+        if units and units[0] == ("c", 0x5C):
+            rest = units[1:]
+            if len(rest) == 1 and rest[0][0] == "c":
+                ok = rest[0][1] in JSON_ESCAPE_LETTERS
+                msg = f"emits the escape `\\{chr(rest[0][1])}`, which is not a JSON escape"
+            elif len(rest) == 1 and rest[0][0] == "table":
+                bad = [x for x in rest[0][1] if x not in JSON_ESCAPE_LETTERS]
+                ok = not bad
+                msg = f"takes the escape letter from a table containing {[chr(x) for x in bad]}, which are not JSON escapes"
+            elif len(rest) == 5 and rest[0] == ("c", 0x75) and all(u == ("hex",) for u in rest[1:]):
+                ok = True
+            else:
+                ok = False
+                msg = f"emits a backslash followed by {rest}, which is neither a two-character JSON escape nor \\uXXXX"
+        elif any(u == ("c", 0x5C) for u in units):
+            ok = False
+            msg = "emits a backslash in the middle of a sequence"
+        elif any(u[0] == "?" for u in units):
+            ok = False
+            msg = f"appends units the rule cannot classify: {units}"
+        rep.ob("R2", key + ":json-escape", ok,
+               f"Json::quote_json_string {msg} ({f.loc(b)}): JSON.stringify output is rejected by JSON.parse and by any "
+               f"independent JSON parser", loc=f.loc(b))
+    rep.floor("R2", "appends to the product in quote_json_string", n, 12)
+
+
 def run(db, rep, tier):
+    r2(db, rep)
     rep.rule("R1", "Json::parse: ECMA-404 pre-validation (serde_json::from_str == Ok) dominates parsing and evaluation; JSON "
                    "parse mode is set; the compiler runs in json_parse mode")
     fs = [f for f in db.fns.values() if cname(f.id) == "Json::parse" and f.id.startswith("boa_engine::builtins::json")]
